@@ -47,6 +47,12 @@ CLAIMS = {
         "note": "Trusted: the column reference in harness/src/props/c12.rs and the unicode-width tables. Double-width content: W-1 columns are accepted where exactly W cannot be kept; combining marks are compared on base characters.",
         "technique": "runtime monitoring: differential oracle on rendered fields measured in terminal columns",
     },
+    "C10": {
+        "text": "Exploration: (A) totality - grammar-generated templates, their single-character mutants and brace/colon/digit-biased random strings incl. arbitrary Unicode are parsed with with_template and template() under catch_unwind in release and debug builds: Ok or Err, never a panic; (B) fidelity - templates generated from an AST of the documented grammar (escaped braces adjacent to placeholders, '{'+whitespace literals, unknown keys, widths 0..65535 and beyond, alignment, '!', styles, 1-4 lines) are rendered through a real bar and the raw lines handed to the terminal must equal the AST's own rendering, line for line.",
+        "design_ref": "DESIGN.md §4 C10",
+        "note": "Trusted: the AST renderer in harness/src/props/c10.rs (uses the C12 column reference for padded fields). A final empty template line may be present or absent; widths beyond u16::MAX must be rejected with Err.",
+        "technique": "runtime monitoring: grammar-directed differential oracle + panic monitor",
+    },
 }
 
 ALL = [f"C{n:02d}" for n in range(1, 20)]
